@@ -12,6 +12,7 @@ import (
 	"time"
 
 	"github.com/google/mtail/internal/metrics"
+	"github.com/google/mtail/internal/runtime"
 	"github.com/google/mtail/internal/zverif/hsx"
 	"github.com/google/mtail/internal/zverif/shared/mt"
 	"github.com/google/mtail/internal/zverif/shared/rtx"
@@ -80,6 +81,7 @@ type snap struct {
 	other   string
 	version string
 	vmid    string
+	hidden  string
 }
 
 func observe(rt *rtx.RT) snap {
@@ -103,6 +105,7 @@ func observe(rt *rtx.RT) snap {
 	s.other = rt.DumpProg("q.mtail", true)
 	s.version = rt.R.VerifHandles()[P]
 	s.vmid = rt.R.VerifVMIDs()[P]
+	s.hidden = rt.StateDump()
 	return s
 }
 
@@ -149,10 +152,10 @@ type outcome struct {
 	applic        bool
 }
 
-func execute(ops []op, skip []bool, withOther bool) outcome {
+func execute(ops []op, skip []bool, withOther bool, opts ...runtime.Option) outcome {
 	o := outcome{applic: true}
 	res := hsx.Exec(400000, func() {
-		rt := rtx.Start("")
+		rt := rtx.Start("", opts...)
 		if rt.Err != nil {
 			o.bad = rt.Err.Error()
 			return
@@ -204,7 +207,7 @@ func execute(ops []op, skip []bool, withOther bool) outcome {
 	return o
 }
 
-func mkConfig(c *vlib.Ctx, cname string, vers []int, lines []string, withOther bool, depth int) hsx.Config {
+func mkConfig(c *vlib.Ctx, cname string, vers []int, lines []string, withOther bool, depth int, opts ...runtime.Option) hsx.Config {
 	var ops []op
 	for _, v := range vers {
 		ops = append(ops, op{kind: "load", ver: v})
@@ -227,7 +230,7 @@ func mkConfig(c *vlib.Ctx, cname string, vers []int, lines []string, withOther b
 				hs = append(hs, names[x])
 			}
 			hstr := "load(V0) ; " + strings.Join(hs, " ; ")
-			r := execute(h, nil, withOther)
+			r := execute(h, nil, withOther, opts...)
 			if !r.applic {
 				return hsx.Result{}
 			}
@@ -237,7 +240,7 @@ func mkConfig(c *vlib.Ctx, cname string, vers []int, lines []string, withOther b
 			if r.bad != "" {
 				return viol("anomaly "+strings.SplitN(r.bad, "\n", 2)[0], r.bad)
 			}
-			key := fmt.Sprintf("running=%s\n%s\n--\n%s", short(r.after.version), r.after.dump, r.after.other)
+			key := fmt.Sprintf("impl=%s running=%s\n%s\n--\n%s", r.after.hidden, short(r.after.version), r.after.dump, r.after.other)
 			if len(h) == 0 {
 				return hsx.Result{Key: key}
 			}
@@ -301,7 +304,7 @@ func mkConfig(c *vlib.Ctx, cname string, vers []int, lines []string, withOther b
 				anyFailed = anyFailed || f
 			}
 			if anyFailed && last.kind != "load" {
-				r2 := execute(h, r.failed, withOther)
+				r2 := execute(h, r.failed, withOther, opts...)
 				if r2.bad != "" {
 					return viol("anomaly-without-failed-loads", r2.bad)
 				}
@@ -337,12 +340,14 @@ func main() {
 		cfgs = append(cfgs,
 			mkConfig(c, "with-other-program/depth4", all, lines, true, 4),
 			mkConfig(c, "alone/core-versions/depth5", []int{1, 2, 3, 4, 6, 9}, []string{"k a", "o a", "d a"}, false, 5),
+			mkConfig(c, "omit-metric-source/depth3", all, []string{"k a", "o a"}, false, 3, runtime.OmitMetricSource()),
 		)
 	} else {
 		cfgs = append(cfgs,
 			mkConfig(c, "with-other-program/depth5", all, lines, true, 5),
 			mkConfig(c, "alone/depth5", all, lines, false, 5),
 			mkConfig(c, "alone/core-versions/depth7", []int{1, 2, 3, 4, 6, 9}, []string{"k a", "o a", "d a"}, false, 7),
+			mkConfig(c, "omit-metric-source/depth4", all, lines, false, 4, runtime.OmitMetricSource()),
 		)
 	}
 	c.Assume = []string{
